@@ -678,7 +678,7 @@ def runs_for(pid, sc, rnd, thorough):
 def search(pid, n_random, seed, stop_at=4):
     rnd = random.Random(seed * 104729 + int(pid[1:]))
     thorough = n_random > 40
-    flags = dict(earn=True, intra=True, tz_mix=(pid in ("C13", "C19")), strict_balances=False)
+    flags = dict(earn=True, intra=True, tz_mix=(pid in ("C13", "C19", "C20")), strict_balances=False)
     scs = multi_scenarios(rnd, n_random, **flags)
     jobs = []
     for i, sc in enumerate(scs):
